@@ -172,3 +172,76 @@ func exactKeyUse(p *core.Program, fd *core.FuncDecl, v *types.Var, depth int, se
 	})
 	return why, at
 }
+
+// c18Components — C18-R5 (second clause): the helpers that decide whether a
+// composed key (`standard+eqs`) holds a given key compare whole `+` components.
+// Key.Has / Key.HasPrefix may compare the components of strings.Split for
+// equality, or search the text with both the haystack and the needle delimited
+// by the separator on every side the search leaves open; a needle without its
+// trailing separator makes `standardized` hold `standard`, and the rate rule
+// (InCategoryRates → Key.Has) then accepts unpublished rate keys.
+func c18Components(c *core.Ctx) {
+	p := c.P
+	for _, name := range []string{"Has", "HasPrefix"} {
+		fd := p.Func("cbc", "Key", name)
+		if fd == nil {
+			c.Ob("C18-R5", "UNRESOLVED:cbc.Key."+name, token.NoPos, false, "method not found")
+			continue
+		}
+		info := fd.Pkg.TypesInfo
+		ld := core.NewLocalDefs(info, fd.Decl.Body)
+		var flat func(e ast.Expr, depth int) []ast.Expr
+		flat = func(e ast.Expr, depth int) []ast.Expr {
+			e = ast.Unparen(e)
+			if be, ok := e.(*ast.BinaryExpr); ok && be.Op == token.ADD {
+				return append(flat(be.X, depth), flat(be.Y, depth)...)
+			}
+			if v := core.VarOf(info, e); v != nil && depth < 4 {
+				if ds := ld.All(v); len(ds) == 1 && ds[0].RHS != nil && ds[0].N == 1 {
+					return flat(ds[0].RHS, depth+1)
+				}
+			}
+			return []ast.Expr{e}
+		}
+		isSep := func(e ast.Expr) bool {
+			tv, ok := info.Types[e]
+			return ok && tv.Value != nil && tv.Value.ExactString() == `"+"`
+		}
+		why := ""
+		var at token.Pos
+		ast.Inspect(fd.Decl.Body, func(n ast.Node) bool {
+			call, ok := n.(*ast.CallExpr)
+			if !ok || why != "" {
+				return true
+			}
+			fn := core.Callee(info, call)
+			if fn == nil || fn.Pkg() == nil || fn.Pkg().Path() != "strings" {
+				return true
+			}
+			left := func(e ast.Expr) bool { f := flat(e, 0); return len(f) > 1 && isSep(f[0]) }
+			right := func(e ast.Expr) bool { f := flat(e, 0); return len(f) > 1 && isSep(f[len(f)-1]) }
+			switch fn.Name() {
+			case "Split", "SplitN", "Join":
+			case "Contains", "Index", "LastIndex", "Count":
+				if len(call.Args) == 2 && !(left(call.Args[0]) && right(call.Args[0]) && left(call.Args[1]) && right(call.Args[1])) {
+					why, at = fmt.Sprintf("strings.%s(%s, %s) searches text that is not delimited by the separator on both sides of both operands", fn.Name(), types.ExprString(call.Args[0]), types.ExprString(call.Args[1])), call.Pos()
+				}
+			case "HasPrefix":
+				if len(call.Args) == 2 && !(right(call.Args[0]) && right(call.Args[1])) {
+					why, at = fmt.Sprintf("strings.HasPrefix(%s, %s) without the separator closing both operands", types.ExprString(call.Args[0]), types.ExprString(call.Args[1])), call.Pos()
+				}
+			case "HasSuffix":
+				if len(call.Args) == 2 && !(left(call.Args[0]) && left(call.Args[1])) {
+					why, at = fmt.Sprintf("strings.HasSuffix(%s, %s) without the separator opening both operands", types.ExprString(call.Args[0]), types.ExprString(call.Args[1])), call.Pos()
+				}
+			default:
+				why, at = "strings."+fn.Name()+" takes part in the match: the comparison is no longer of whole components as written", call.Pos()
+			}
+			return true
+		})
+		if !at.IsValid() {
+			at = fd.Decl.Pos()
+		}
+		c.Ob("C18-R5", fd.Name()+"#whole-components", at, why == "", "a composed key is not matched component by component: "+why+" — a component that merely starts or ends with the key counts as the key, so rate keys such as `standardized` pass the category's rate rule although no definition publishes them")
+	}
+}
